@@ -199,6 +199,24 @@ def check(ctx):
             ast.unparse(g[0].args[0]) == "avps['origin_host']"
         if not ok:
             break
+    # ... and exactly then: with the three conditions true no path may skip the regeneration
+    from ..paths import eval_bool
+    fixed = {"self.has_avp('session_id_avp')": True, "'session_id' not in avps.keys()": True, "'origin_host' in avps.keys()": True,
+             "'session_id' in avps.keys()": False, "'origin_host' not in avps.keys()": False, "not silent_errors": False}
+    skipped = None
+    for pth in enum_paths(ua.body, decide=lambda t, ev_: eval_bool(t, lambda e: fixed.get(ast.unparse(e))), loops="skip"):
+        if pth.term == "raise":
+            continue
+        g = [c for c, _ in pth.calls() if call_name(c).endswith("get_session_id")]
+        st_ = [x for x in pth.stmts() if isinstance(x, ast.Assign) and ast.unparse(x.targets[0]) == "self.session_id_avp.data"]
+        if not g or not st_:
+            extra = [ast.unparse(t) for t, tr in pth.conds() if ast.unparse(t) not in fixed]
+            skipped = extra
+    ctx.decide(skipped is None, "R-DOM/regenerate", f"{msg.qual}.update_avps", msg.where(ua),
+               "whenever origin_host is given without session_id the Session-Id is regenerated and stored",
+               f"with origin_host given and session_id not, a path skips the regeneration (extra condition(s) {skipped}): the message "
+               f"keeps a Session-Id built for another identity - it does not start with the new origin and is not fresh",
+               key="regenerate_always")
     ctx.decide(ok and len(gens) == 1, "R-DOM/regenerate", f"{msg.qual}.update_avps", msg.where(ua),
                "regeneration only when origin_host is given without session_id, from the new origin host",
                "update_avps regenerates the Session-Id outside the documented condition (origin_host given, session_id not)",
